@@ -337,6 +337,30 @@ def handle : Handler := fun op inp impl =>
     { agree := canonMD (hsAsMD implHs) == canonMD (hsAsMD mHs) && canonMD (nonEmpty back) == canonMD (nonEmpty m),
       holds := holds, nontrivial := claimed && h.length > 1, model := canonJson "k" (canonMD m),
       why := if holds then "" else "http.Header -> ConvertToProtoHeader -> AddHeaders does not hold every value of every key" }
+  | "anyconn" =>
+    let e := parseErr (field inp "err")
+    let kind := str (field inp "kind")
+    let text := str (field inp "text")
+    let implOut := parseErr? impl
+    let g : Option GoErr := match kind with
+      | "nil" => none
+      | "plain" => some (.plain text)
+      | "connect" => some (.connect (protoToConnect e))
+      | _ => some (.wrapped (protoToConnect e))
+    let mOut := (errorToConnect g).map connectToProto
+    let holds := match kind with
+      | "nil" => implOut.isNone
+      | "plain" => (match implOut with | some o => o.code == codeUnknown && o.getMessage == text && o.details.isEmpty | none => false)
+      | _ => match implOut with
+        | some o => if DefaultPrefixed e then sameError o e else sameErrorTypes o e
+        | none => false
+    { agree := implOut == mOut, holds := holds, nontrivial := kind != "nil", model := errJson mOut, cls := kind,
+      why := if holds then "" else "error not preserved by ConvertErrorToConnectError (" ++ kind ++ ")" }
+  | "nilconv" =>
+    let all := ["protoToConnect", "connectToProto", "protoToGrpc", "grpcToProto", "errToConnect", "errToProto"]
+    let bad := all.filter (fun k => !bool (field impl k))
+    { agree := bad.isEmpty, holds := bad.isEmpty, nontrivial := true,
+      why := if bad.isEmpty then "" else s!"a nil error is not converted to nil by {bad}" }
   | "getrt" =>
     let fail := str (field impl "fail")
     if fail != "" then { agree := false, holds := false, why := "GET message round trip: " ++ fail } else
@@ -386,7 +410,7 @@ def handle : Handler := fun op inp impl =>
     let m := ProtoWire.strictTop known data
     let walkOk := (ProtoWire.fields data).isSome
     let mCls : String := if !parses then "malformed" else match m with
-      | .ok => "ok" | .malformed => "malformed" | .unknown _ _ => "unknown" | .unprocessable => "unprocessable"
+      | .ok => "ok" | .malformed => "malformed" | .unknown _ _ => "unknown"
     let reportOk := match m with
       | .unknown num wt => cls != "unknown" || (nat (field impl "num") == num && str (field impl "wt") == wtName wt)
       | _ => true
